@@ -199,7 +199,12 @@ func VerifC01_Write1() {
 // VerifC01_WriteN: one batch update to a named archive, all points inside its retention and
 // not in the future (routing and acceptance are C03's subject).
 func VerifC01_WriteN() {
-	h := vrtChooseHeaderSmall(Sum, 0.5)
+	// the quick layout family plus one more 2-level layout in the thorough tier
+	wl := []string{"1s:2s", "5s:15s", "1s:2s,2s:6s", "60s:120s,120s:360s"}
+	if vrt.Tier() == 1 {
+		wl = append(wl, "1s:3s,3s:9s")
+	}
+	h := vrtChooseHeaderFrom(wl, Sum, 0.5)
 	now := vrtInstant(h, "now")
 	vrtAssumeClock(h, now)
 	img, pre := vrtInvImage(h, "s", now)
@@ -208,8 +213,8 @@ func VerifC01_WriteN() {
 	ai := vrt.Choose("archive", na)
 	a := h.archiveInfoList[ai]
 	maxB := 2
-	if vrt.Tier() == 1 {
-		maxB = 3
+	if vrt.Tier() == 1 && na == 1 {
+		maxB = 3 // batches of 3 on multi-archive layouts did not finish within 25 minutes
 	}
 	nb := 1 + vrt.Choose("batch", maxB)
 	pts := make([]Point, nb)
